@@ -416,8 +416,9 @@ inductive Call (K : Type)
   | newEmpirical (kind : Kind) (x y : Nat) (xconv yconv : List K) (keepNeg : Bool) (md : Option Nat)
   /-- `cls(Box1D | ConstFlux1D | Gaussian1D | …, parameters)` -/
   | newAnalytic (kind : Kind) (l : Leaf K)
-  /-- `SourceSpectrum(BlackBody1D, temperature=T)` -/
-  | newBlackBody (temp : K)
+  /-- `SourceSpectrum(BlackBody1D, temperature=T)`; `label`: the text `'bb({0})'.format(T)` the model
+  class stores as `meta['expr']` -/
+  | newBlackBody (temp : K) (label : String)
   /-- `obj(w)` -/
   | sample (o : Nat) (w : Nat) (conv : List K)
   /-- `a <op> b` (left operand not an `Observation`) -/
@@ -642,15 +643,17 @@ def rootEnds (h : Heap K) (A : Obj K) : Option (K × K × Bool) :=
       | none => none
   | none => none
 
-/-- the effects of `A.taper()` given its samples, and the tapered object
-(`none`: both end values already zero, `self` is returned).  New arrays, a new `Empirical1D`
-built with the table's own `keep_neg`, a new object whose metadata starts empty. -/
-def taperCore (h : Heap K) (A : Obj K) (d : TaperData K) (nArr nTab : Nat) :
-    Option (List (Effect K) × Obj K) :=
-  let (front, back, keep) := match rootEnds h A with
-    | some (y1, y2, kn) => (decide (y1 ≠ 0), decide (y2 ≠ 0), kn)
-    | none => (d.front, d.back, false)
-  if !front && !back then none else
+/-- which ends `taper` extends (`y1 != 0`, `y2 != 0`) and the `keep_neg` flag it passes on: read
+from the table when the model is one, otherwise from two extra samples -/
+def taperEnds (h : Heap K) (A : Obj K) (d : TaperData K) : Bool × Bool × Bool :=
+  match rootEnds h A with
+  | some (y1, y2, kn) => (decide (y1 ≠ 0), decide (y2 ≠ 0), kn)
+  | none => (d.front, d.back, false)
+
+/-- new arrays, a new `Empirical1D` built with the table's own `keep_neg`, a new object whose
+metadata starts empty -/
+def taperBuild (A : Obj K) (d : TaperData K) (front back keep : Bool) (nArr nTab : Nat) :
+    List (Effect K) × Obj K :=
   let x0 := d.xs.headD 0
   let x1 := (d.xs.drop 1).headD 0
   let xl := d.xs.getLastD 0
@@ -662,8 +665,15 @@ def taperCore (h : Heap K) (A : Obj K) (d : TaperData K) (nArr nTab : Nat) :
   let yc := clipNeg keep yb
   let tcell : TableCell :=
     { pts := nArr, vals := nArr + 1, rev := false, keepNeg := keep, fillNaN := !endsZero yc.1 }
-  let ob := freshObj A.kind (.tab nTab) ⟨negWarning yc.2, []⟩
-  some ([.allocArr ⟨xb, .ndarray, false⟩, .allocArr ⟨yc.1, .ndarray, false⟩, .allocTable tcell], ob)
+  ([.allocArr ⟨xb, .ndarray, false⟩, .allocArr ⟨yc.1, .ndarray, false⟩, .allocTable tcell],
+   freshObj A.kind (.tab nTab) ⟨negWarning yc.2, []⟩)
+
+/-- the effects of `A.taper()` given its samples, and the tapered object
+(`none`: both end values already zero, `self` is returned) -/
+def taperCore (h : Heap K) (A : Obj K) (d : TaperData K) (nArr nTab : Nat) :
+    Option (List (Effect K) × Obj K) :=
+  let e := taperEnds h A d
+  if !e.1 && !e.2.1 then none else some (taperBuild A d e.1 e.2.1 e.2.2 nArr nTab)
 
 def taper (h : Heap K) (o : Nat) (d : TaperData K) : List (Effect K) × Outcome K :=
   match h.objs[o]? with
@@ -878,7 +888,8 @@ def sampleCall (fx : Fixes) (env : HEnv K) (h : Heap K) (o w : Nat) (conv : List
 def effects (fx : Fixes) (env : HEnv K) (h : Heap K) : Call K → List (Effect K) × Outcome K
   | .newEmpirical kind x y xc yc keep md => newEmpirical fx h kind x y xc yc keep md
   | .newAnalytic kind l => ([.allocObj (freshObj kind (.ana l) Meta.empty)], .ok (.obj h.objs.length))
-  | .newBlackBody temp => ([.allocObj (freshObj .source (.bb temp) Meta.empty)], .ok (.obj h.objs.length))
+  | .newBlackBody temp label =>
+      ([.allocObj (freshObj .source (.bb temp) ⟨[], [("expr", label)]⟩)], .ok (.obj h.objs.length))
   | .sample o w conv => sampleCall fx env h o w conv
   | .arith op a b => arith h op a b
   | .rmul v a => arith h .mul a (.real v)
